@@ -256,7 +256,7 @@ def _run(case, scripts, orders, kill, kill_at, short, files_tag, counters, nts):
             prng = random.Random(case["seed"] + len(order))
             poison = (prng.randrange(len(order)),) + prng.choice([
                 ("/start-instance", {"timeout": {"seconds": "3"}}), ("/start-instance", {"timeout": {"minutes": None}}), ("/start-instance", {"timeout": {"hours": [1]}}),
-                ("/start-instance", {"timeout": "soon"}), ("/start-instances", {"instances": 2, "timeout": {"seconds": "x"}}), ("/start-instance", {"timeout": {"fortnights": 2}})])
+                ("/start-instance", {"timeout": "soon"}), ("/start-instance", {"timeout": {"weeks": 1000000}}), ("/start-instance", {"timeout": {"days": 999999999}}), ("/start-instances", {"instances": 2, "timeout": {"seconds": "x"}}), ("/start-instance", {"timeout": {"fortnights": 2}})])
             counters["malformed_foreign_requests"] = counters.get("malformed_foreign_requests", 0) + 1
         got = play(scripts, order, case["shared"], case["adapter"], kill, kill_at, short, creation=case.get("creation", "upfront"), files_tag=files_tag, poison_at=poison)
         got = json.loads(json.dumps(got))          # same normal form as the child's answers (tuples -> lists)
